@@ -129,27 +129,28 @@ def _run(c, quick_cfgs, thorough_cfgs, sim, props, nq, nt, lag2=False):
         'JSON protocol, one subscriber connection, one channel, two keys per behaviour; the tags of a key do not change within a behaviour',
         'at most one delivery in flight between broker and node (what the memory broker can do: HandlePublication runs under the channel publish lock); lag2_fixed.cfg documents what a longer PUB/SUB lag does',
         'the window between LockBufferAndReadBuffered and StopBuffering is atomic; handleInsufficientState runs immediately after it is spawned',
-        'a positioned subscription whose position differs from the stream top with nothing in flight (after Clear) is ended by the periodic position check (Client.checkPosition), which is not modelled: such states are not judged',
+        'a positioned subscription whose position differs from the stream top is not a final state: the periodic position check (modelled as action PosCheck, replayed through Client.updatePresence with the node clock moved ahead) ends it with insufficient state',
         'reference client: applies state entries, then publications with offset 0 or offset > saved position (Removed deletes), ignores pushes outside an established subscription, resubscribes from scratch after error 112 / unsubscribe push; delta and ordered state are not modelled',
-        'key expiry is triggered through the public API (TTL shortened by a suppressed if-new publish) plus one iteration of the sweep body; stream expiry through an overlay calling stream.Clear() as the sweep does',
+        'key expiry is triggered through the public API (TTL shortened by a suppressed if-new publish) plus one iteration of the sweep body; stream expiry through an overlay calling stream.Clear() as the sweep does; the position check through an overlay running one connection tick',
     ]
 
 
 def c22(c):
     _run(c, ['quick_eph.cfg', 'quick_stream_@.cfg'], ['thorough_eph.cfg', 'thorough_rec_@.cfg', 'thorough_per_@.cfg'],
-         'sim_@.cfg', {'C22'}, 1000, 8000, lag2=True)
+         'sim_@.cfg', {'C22'}, 1000, 12000, lag2=True)
 
 
 def c16_map(c):
-    _run(c, ['quick_filt_@.cfg'], ['thorough_filt_@.cfg', 'thorough_eph.cfg'], 'sim_filt_@.cfg', {'C16', 'C16M'}, 800, 6000)
+    _run(c, ['quick_filt_@.cfg'], ['thorough_filt_@.cfg', 'thorough_eph.cfg'], 'sim_filt_@.cfg', {'C16', 'C16M'}, 800, 8000)
 
 
 CHECKS = {'C22': c22, 'C16M': c16_map}
 
-_note = ('Bounds: exhaustive 2 keys, <=3 environment operations (2 in quick stream configs, 4 for streamless maps in thorough), page size 1-2, stream size 1-2, '
-         'live transition limit 3, three modes, fresh subscribe / recovery join by LIVE / by STREAM phase, no / client / server tags filter, one resubscribe after an '
-         'explicit end; replay: 1000 (quick) / 8000 (thorough) simulated behaviours with <=4 operations. Trusted: TLC, lib/tlaparse.py, harness projection / reference '
-         'client / monitor code, overlay/mapsub (runs the sweep bodies). Redis map broker not covered.')
+_note = ('Bounds: exhaustive 2 keys, <=3 environment operations on top of 0 or 2 initially present keys (quick: 2 operations, empty start; streamless maps 3 / 4), '
+         'page size 1-2, stream size 1-2, live transition limit 3, three modes, fresh subscribe / recovery join by LIVE / by STREAM phase, no / client / server tags '
+         'filter, one resubscribe after an explicit end, periodic position check; replay: 1000 (quick) / 12000 (thorough) simulated behaviours with <=5 operations on '
+         '0-2 initial keys. Trusted: TLC, lib/tlaparse.py, harness projection / reference client / monitor code, overlay/mapsub (runs the sweep bodies and one '
+         'connection tick). Redis map broker not covered.')
 META = {
     'C22': dict(level='model_checking',
                 text='MapSub.tla models the subscription protocol as coded (every page its own command, the live transition split at its natural gates) over a map broker '
